@@ -52,7 +52,7 @@ def run(R):
     if grb is not None:
         prep(grb)
         g = cfg_of(grb)
-        R.gate("C02.decrypt", grb, AggSink("core::option::Option", "Some", dest_ty="Cow<"),
+        R.gate("C02.decrypt", grb, AggSink("core::option::Option", "Some", dest_ty="Cow<", computed=True),
                [[CallGuard(["*aead::Aead>::decrypt", "*aead::Aead::decrypt"], ("Ok",), "cipher.decrypt is Ok")]],
                descr="get_record_from_bytes returns Some only for an authenticated ciphertext (cfg! literal folded)")
         R.inst("C02.decrypt.fold", "K12 manifest fact", "cfg!(feature=\"encrypt-records\") literal folded in get_record_from_bytes", len(g.folded), bool(g.folded) and g.folded[0][1] == "true",
@@ -65,7 +65,7 @@ def run(R):
     prb = R.body("C02.encrypt", NRS + "::prepare_record_bytes")
     if prb is not None:
         prep(prb)
-        R.gate("C02.encrypt", prb, AggSink("core::option::Option", "Some", dest_ty="Vec<u8>"),
+        R.gate("C02.encrypt", prb, AggSink("core::option::Option", "Some", dest_ty="Vec<u8>", computed=True),
                [[CallGuard(["*aead::Aead>::encrypt", "*aead::Aead::encrypt"], ("Ok",), "cipher.encrypt is Ok")]],
                descr="what is written to disk is the AEAD ciphertext (cfg! literal folded)")
     scan_cl = [b for b in F.item(SCAN) if b.kind == "closure" and any(c["ncallee"] == GRB for c in b.calls)]
